@@ -62,6 +62,8 @@ GRID = ["uc7_config", "uc7_config_tap003", "data_manipulation"]           # thor
 # plug-in node type.  Scenarios with two proxy agents are driven through the MARL driver instead.
 SKIP = {"bad_primaite_session", "no_nodes_links_agents_network", "eval_only_primaite_session", "extended_config"}
 MARL = ["multi_agent_session", "data_manipulation_marl"]
+PAIRS_QUICK = ["data_manipulation"]
+PAIRS_THOROUGH = ["data_manipulation", "basic_firewall", "uc7_config", "multi_lan_internet_network_example"]
 CHUNK = 5            # disturbed episodes per unit (one environment, one reset per episode)
 
 _SEGS: List[tuple] = []      # (first line, end line, unit, variant, max_len, marl, scenario_dir, ops) of every play merged so far
@@ -449,7 +451,80 @@ def _do_settings(rec: dict, unit: dict):
     rec["cases"].append((f"{label}|{len(ops)}", True))
 
 
-KINDS = {"settings": _do_settings, "game": _do_game, "corpus": _do_corpus, "rewards": _do_rewards, "case": _do_case, "sched": _do_sched, "marl": _do_marl, "probe": _do_probe, "disturb": _do_disturb, "agents": _do_agents}
+def _do_pairs(rec: dict, unit: dict):
+    """Ordered pairs / triples of actions on co-located targets (harness/rigs/c01_pairs.py)."""
+    from harness.rigs import c01_pairs as cp
+    cfg, notes = _resolve_cfg(unit)
+    rec["notes"] += [n for n in notes if n != "scenario-given-a-minimal-proxy-agent"]
+    if cfg is None:
+        return
+    rng: Rng = unit["rng"]
+    plan = cp.Plan(cfg)
+    plan.build(unit["group"], rng, unit["thorough"], unit["cross_cap"], unit["triple_cap"], unit["dedupe"], unit.get("same_cap", 10 ** 9))
+    for k, v in plan.stats.items():
+        _count(rec, f"pairs:{unit['label']}:{k}", v)
+    if not plan.segments:
+        return
+    pcfg = plan.cfg()
+    max_steps = unit["max_steps"]
+    max_len = max_steps + 3
+    pcfg.setdefault("game", {})["max_episode_length"] = max_len
+    eps = plan.episodes(max_steps)
+    if unit.get("episode_cap") and len(eps) > unit["episode_cap"]:
+        _count(rec, f"pairs:{unit['label']}:episodes NOT run (cap)", len(eps) - unit["episode_cap"])
+        eps = rng.fork("cap").shuffle(eps)[:unit["episode_cap"]]
+    env = None
+    history: List[Any] = []
+    failed = 0
+    for k, segs in enumerate(eps):
+        if failed >= 3:      # enough witnesses of this unit: the rest of its plan is not run (the check is red anyway)
+            _count(rec, f"pairs:{unit['label']}:episodes NOT run after three failing ones", len(eps) - k)
+            break
+        if env is None:
+            try:
+                env = envrig.make_driver(pcfg)
+                history = []
+            except Exception as e:
+                rec["viol"].append({"sig": {"kind": "env-construction-raises", "exc": type(e).__name__}, "what": f"{unit['label']}: constructor raises {e}",
+                                    "replay": {"kind": "env", "scenario": unit["label"], "cfg_yaml": _dump(pcfg), "ops": [], "marl": False, "max_len": max_len},
+                                    "agent_file": None, "kind": "env-construction-raises"})
+                return
+        ops: List[Any] = [["reset", rng.fork(f"seed{k}").below(2 ** 31), None]]
+        for sg in segs:
+            ops += sg["ops"]
+        ops.append(0)
+        p = envrig.play(env, ops, max_len, announce=not history)
+        history += ops
+        desc = " | ".join(f"{sg['node']}:" + ">".join(f"{i}({t})" for i, t in sg["steps"]) for sg in segs[:3])
+        if p.fails:
+            kinds = {f["kind"] for f in p.fails}
+            q = envrig.run_ops(pcfg, ops, max_len)
+            if {f["kind"] for f in q.fails} & kinds:
+                mcfg, mops = cp.minimise(pcfg, ops, max_len, {f["kind"] for f in q.fails} & kinds)
+                p2 = envrig.run_ops(mcfg, mops, max_len)
+                amap = envrig.proxy_agent_cfg(mcfg)["action_space"]["action_map"]
+                seq = " ; ".join(f"{amap[a]['action']} {amap[a]['options']}" for a in mops if isinstance(a, int) and a in amap)
+                _absorb(rec, p2, unit["label"], f"co-located-pairs:{unit['group']}", mcfg, max_len, extra_what=f"(minimal sequence: {seq[:600]})")
+            else:
+                _absorb(rec, p, unit["label"], f"co-located-pairs:{unit['group']}[{desc[:200]}]", pcfg, max_len, ops_override=list(history),
+                        extra_what="(needs the earlier episodes of the same environment)")
+            _count(rec, "pairs:episodes-that-failed")
+            failed += 1
+        else:
+            _absorb(rec, p, unit["label"], f"co-located-pairs:{unit['group']}", pcfg, max_len)
+        _count(rec, "case:pairs:" + unit["group"])
+        for sg in segs:
+            _count(rec, f"pairs:segments-run:{sg['kind']}:{sg['family']}")
+            for i, _t in sg["steps"]:
+                _count(rec, "pairs:action:" + i)
+            rec["cases"].append((f"{unit['label']}|pairs|{sg['node']}|{sg['scope']}|{sg['steps']}", True))
+        if p.raised:
+            env = None
+    rec["samples"].append({"scenario": unit["label"], "variant": "co-located-pairs:" + unit["group"],
+                           "first_episode": [f"{sg['node']}:{sg['steps']}" for sg in eps[0][:4]], "episodes": len(eps), "action_map": len(plan.amap)})
+
+
+KINDS = {"pairs": _do_pairs, "settings": _do_settings, "game": _do_game, "corpus": _do_corpus, "rewards": _do_rewards, "case": _do_case, "sched": _do_sched, "marl": _do_marl, "probe": _do_probe, "disturb": _do_disturb, "agents": _do_agents}
 
 
 def _exec_unit(unit: dict) -> dict:
@@ -534,6 +609,18 @@ def _phase1(ctx: Ctx, rng: Rng) -> List[dict]:
         if name in shipped:
             units.append({"kind": "rewards", "label": name, "scenario": name, "rng": rng.fork("rew" + name), "n": ctx.scale(6, 30),
                           "episodes": 2, "steps": ctx.scale(12, 30), "weight": 6})
+    # ordered pairs / triples of actions of one target family on co-located targets (harness/rigs/c01_pairs.py)
+    from harness.rigs import c01_pairs as cp
+    r_pairs = rng.fork("pairs")
+    pair_scenarios = [n for n in (PAIRS_THOROUGH if ctx.thorough else PAIRS_QUICK) if n in shipped]
+    for name in pair_scenarios:
+        big = name.startswith("uc7")
+        for group in cp.GROUPS:
+            units.append({"kind": "pairs", "label": name, "scenario": name, "group": group, "rng": r_pairs.fork(name + group),
+                          "thorough": ctx.thorough and not big, "dedupe": True, "same_cap": ctx.scale(30, 10 ** 9),
+                          "cross_cap": ctx.scale(30, 40 if big else 400), "triple_cap": ctx.scale(0, 20 if big else 150), "max_steps": 40,
+                          "episode_cap": (6 if big else None) if ctx.thorough else None,
+                          "weight": {"application": 25, "service": 12}.get(group, 5) * (3 if ctx.thorough else 1)})
     from harness.rigs import c01_settings as cs
     r_set = rng.fork("settings")
     for atype in ("periodic-agent", "red-database-corrupting-agent", "probabilistic-agent", "random-agent"):
